@@ -8,6 +8,10 @@
 -/
 import XlVerif.Lemmas.C18Spec
 import XlVerif.Lemmas.C18Iso
+import Mathlib.Tactic.Linarith
+import Mathlib.Tactic.NormNum
+import Mathlib.Tactic.Ring
+import Mathlib.Algebra.Order.Field.Rat
 namespace XlVerif.Props.C18
 open XlVerif XlVerif.Model.C18 XlVerif.Lemmas.C18Cal XlVerif.Lemmas.C18Spec XlVerif.Lemmas.C18SpecCal
 open XlVerif.Spec.C18 (Date ordinal daysBeforeYear serialOf serialOfOrdinal nextDay IsDateOf)
@@ -478,5 +482,551 @@ theorem date_inverse (n : Int) (h : IsSerial n) :
 theorem date_inverse_serial (n : Int) (h : IsSerial n) :
     serialRes (DATE (.int (dateOf n).y) (.int (dateOf n).m) (.int (dateOf n).d)) = .ok (n : Rat) := by
   rw [date_inverse n h, ← serial_roundtrip n h, number_to_datetime_whole n h]; rfl
+
+/-! ### EDATE and EOMONTH -/
+
+theorem ordinal_range (c : Date) (hv : c.Valid) (hy0 : 1 ≤ c.y) (hy1 : c.y ≤ 9999) :
+    1 ≤ ordinal c ∧ ordinal c ≤ 3652059 := by
+  have hb := ordinal_bounds c hv
+  have e1 : daysBeforeYear 1 = 0 := by decide
+  have e2 : daysBeforeYear 10000 = 3652059 := by decide
+  have m1 := dby_mono 1 c.y hy0
+  have m2 := dby_mono (c.y + 1) 10000 (by omega)
+  omega
+
+/-- the `datetime` of a date of the calendar in years 1 … 9999 -/
+theorem dtOfYMD_valid (c : YMD) (hv : Valid c) (hy0 : 1 ≤ c.y) (hy1 : c.y ≤ 9999) (s : Rat) :
+    dtOfYMD c s = .ok ⟨ordinal (toSpec c) - 693596, s⟩ := by
+  have hr := ordinal_range (toSpec c) hv hy0 hy1
+  have ho : ordinal (toSpec c) = daysFromCivil c - 305 := ordinal_eq c.y c.m c.d hv.1 hv.2.1
+  unfold dtOfYMD
+  have e : daysFromCivil c - epochCivil = ordinal (toSpec c) - 693596 := by rw [ho]; unfold epochCivil; omega
+  rw [e]
+  exact mkDT_ok _ _ (by omega) (by omega)
+
+theorem ymd_of_valid (c : YMD) (hv : Valid c) (s : Rat) : DT.ymd ⟨ordinal (toSpec c) - 693596, s⟩ = c := by
+  have ho : ordinal (toSpec c) = daysFromCivil c - 305 := ordinal_eq c.y c.m c.d hv.1 hv.2.1
+  unfold DT.ymd
+  simp only []
+  have e : ordinal (toSpec c) - 693596 + epochCivil = daysFromCivil c := by rw [ho]; unfold epochCivil; omega
+  rw [e]
+  exact civil_days c hv
+
+theorem number_of_date (c : Date) : datetimeToNumber ⟨ordinal c - 693596, 0⟩ = ((serialOf c : Int) : Rat) := by
+  rw [datetimeToNumber_whole]
+  unfold serialOf serialOfOrdinal
+  simp only []
+  congr 1
+  split <;> split <;> omega
+
+theorem day_neg_iff (c : Date) : ordinal c - 693596 < 0 ↔ serialOf c < 1 := by
+  unfold serialOf serialOfOrdinal
+  simp only []
+  split <;> omega
+
+theorem ymd_dateOf (n : Int) : toSpec (DT.ymd ⟨dayOf n, 0⟩) = dateOf n := rfl
+
+theorem addMonths_valid (c : Date) (hv : c.Valid) (k : Int) : (Spec.C18.addMonths c k).Valid := by
+  unfold Spec.C18.addMonths
+  simp only []
+  have hm : 1 ≤ (Spec.C18.monthShift c.y c.m k).2 ∧ (Spec.C18.monthShift c.y c.m k).2 ≤ 12 := by
+    unfold Spec.C18.monthShift; simp only []; omega
+  have hp := dim_pos (Spec.C18.monthShift c.y c.m k).1 (Spec.C18.monthShift c.y c.m k).2
+  obtain ⟨_, _, hd1, _⟩ := hv
+  refine ⟨hm.1, hm.2, ?_, ?_⟩ <;> simp only [] <;> omega
+
+/-- closed form of the common part of EDATE and EOMONTH on a whole serial -/
+theorem edateCore_eq (n k : Int) (h : IsSerial n)
+    (hr : 1 ≤ (Spec.C18.addMonths (dateOf n) k).y ∧ (Spec.C18.addMonths (dateOf n) k).y ≤ 9999) :
+    edateCore ⟨dayOf n, 0⟩ (.int k) =
+      if serialOf (Spec.C18.addMonths (dateOf n) k) < 1 then .err .num
+      else .ok ⟨ordinal (Spec.C18.addMonths (dateOf n) k) - 693596, 0⟩ := by
+  have hs := serial_date_spec n h
+  have hv := addMonths_valid (dateOf n) hs.1 k
+  unfold edateCore
+  rw [dtInt_serial n h, number_to_datetime_whole n h]
+  unfold Res.bind
+  simp only []
+  have ey : (DT.ymd ⟨dayOf n, 0⟩).y = (dateOf n).y := rfl
+  have em : (DT.ymd ⟨dayOf n, 0⟩).m = (dateOf n).m := rfl
+  have ed : (DT.ymd ⟨dayOf n, 0⟩).d = (dateOf n).d := rfl
+  have hc := carryYM_eq (dateOf n).y (dateOf n).m 0 k hs.1.1 hs.1.2.1
+  have e0 : (dateOf n).y + 0 = (dateOf n).y := by omega
+  rw [e0] at hc
+  have hadd : addRel (DT.ymd ⟨dayOf n, 0⟩) 0 (pyInt (.int k)) none
+      = .ok ⟨(Spec.C18.addMonths (dateOf n) k).y, (Spec.C18.addMonths (dateOf n) k).m,
+             (Spec.C18.addMonths (dateOf n) k).d⟩ := by
+    unfold addRel
+    simp only [pyInt, ey, em, ed, hc]
+    have hy : ¬ ((Spec.C18.monthShift (dateOf n).y (dateOf n).m k).1 < 1 ∨
+        (Spec.C18.monthShift (dateOf n).y (dateOf n).m k).1 > 9999) := by
+      have := hr; unfold Spec.C18.addMonths at this; simp only [] at this
+      omega
+    simp only [if_neg hy]
+    unfold Spec.C18.addMonths
+    simp only [Option.getD]
+    congr 2
+    rw [dim_eq]
+    omega
+  rw [hadd]
+  simp only []
+  have hdt := dtOfYMD_valid ⟨(Spec.C18.addMonths (dateOf n) k).y, (Spec.C18.addMonths (dateOf n) k).m,
+    (Spec.C18.addMonths (dateOf n) k).d⟩ hv hr.1 hr.2 0
+  rw [hdt]
+  simp only []
+  have et : toSpec ⟨(Spec.C18.addMonths (dateOf n) k).y, (Spec.C18.addMonths (dateOf n) k).m,
+    (Spec.C18.addMonths (dateOf n) k).d⟩ = Spec.C18.addMonths (dateOf n) k := rfl
+  rw [et]
+  have := day_neg_iff (Spec.C18.addMonths (dateOf n) k)
+  by_cases hneg : serialOf (Spec.C18.addMonths (dateOf n) k) < 1
+  · simp only [if_pos hneg, if_pos (this.mpr hneg)]
+  · simp only [if_neg hneg, if_neg (fun h => hneg (this.mp h))]
+
+
+/-- `edate_clip`: EDATE moves a serial by whole months and clips the day to the end of the target
+    month; a result before 1900-01-01 is #NUM! (the shifted year must exist as a `datetime`) -/
+theorem edate_clip (n k : Int) (h : IsSerial n)
+    (hr : 1 ≤ (Spec.C18.addMonths (dateOf n) k).y ∧ (Spec.C18.addMonths (dateOf n) k).y ≤ 9999) :
+    serialRes (EDATE ⟨dayOf n, 0⟩ (.int k)) =
+      match Spec.C18.edate (dateOf n) k with
+      | some s => .ok (s : Rat)
+      | none => .err .num := by
+  have hs := serial_date_spec n h
+  have hv := addMonths_valid (dateOf n) hs.1 k
+  have hor := ordinal_range _ hv hr.1 hr.2
+  unfold EDATE Spec.C18.edate
+  rw [edateCore_eq n k h hr]
+  simp only []
+  by_cases hneg : serialOf (Spec.C18.addMonths (dateOf n) k) < 1
+  · simp only [if_pos hneg]; rfl
+  · simp only [if_neg hneg]
+    have hd0 : 0 ≤ ordinal (Spec.C18.addMonths (dateOf n) k) - 693596 := by
+      have := day_neg_iff (Spec.C18.addMonths (dateOf n) k); omega
+    unfold Res.bind
+    simp only []
+    rw [datetime_roundtrip _ hd0 (by rw [maxDay_eq]; omega)]
+    unfold serialRes Res.map
+    simp only []
+    rw [number_of_date]
+
+theorem serial_lt_one_iff (c : Date) (hv : c.Valid) : serialOf c < 1 ↔ c.y < 1900 := by
+  have hb := ordinal_bounds c hv
+  have e1 : daysBeforeYear 1900 = 693595 := by decide
+  unfold serialOf serialOfOrdinal
+  simp only []
+  constructor
+  · intro hlt
+    apply Classical.byContradiction; intro hc
+    have := dby_mono 1900 c.y (by omega)
+    split at hlt <;> omega
+  · intro hlt
+    have := dby_mono (c.y + 1) 1900 (by omega)
+    split <;> omega
+
+theorem endOfMonth_valid (c : Date) (hv : c.Valid) : (Spec.C18.endOfMonth c).Valid := by
+  have := dim_pos c.y c.m
+  obtain ⟨h1, h12, _, _⟩ := hv
+  unfold Spec.C18.endOfMonth
+  refine ⟨h1, h12, ?_, ?_⟩ <;> simp only [] <;> omega
+
+/-- `eomonth`: EOMONTH is the last day of the month reached by moving whole months -/
+theorem eomonth_spec (n k : Int) (h : IsSerial n)
+    (hr : 1 ≤ (Spec.C18.addMonths (dateOf n) k).y ∧ (Spec.C18.addMonths (dateOf n) k).y ≤ 9999) :
+    EOMONTH ⟨dayOf n, 0⟩ (.int k) =
+      match Spec.C18.eomonth (dateOf n) k with
+      | some s => .ok (s : Rat)
+      | none => .err .num := by
+  have hs := serial_date_spec n h
+  have hv := addMonths_valid (dateOf n) hs.1 k
+  have hve := endOfMonth_valid _ hv
+  have h1 := serial_lt_one_iff _ hv
+  have h2 := serial_lt_one_iff _ hve
+  have ey : (Spec.C18.endOfMonth (Spec.C18.addMonths (dateOf n) k)).y = (Spec.C18.addMonths (dateOf n) k).y := rfl
+  rw [ey] at h2
+  unfold EOMONTH Spec.C18.eomonth
+  rw [edateCore_eq n k h hr]
+  simp only []
+  by_cases hneg : serialOf (Spec.C18.addMonths (dateOf n) k) < 1
+  · have : serialOf (Spec.C18.endOfMonth (Spec.C18.addMonths (dateOf n) k)) < 1 := h2.mpr (h1.mp hneg)
+    simp only [if_pos hneg, if_pos this]; rfl
+  · have : ¬ serialOf (Spec.C18.endOfMonth (Spec.C18.addMonths (dateOf n) k)) < 1 :=
+      fun hh => hneg (h1.mpr (h2.mp hh))
+    simp only [if_neg hneg, if_neg this]
+    unfold Res.bind
+    simp only []
+    generalize hc : Spec.C18.addMonths (dateOf n) k = c at *
+    have hy := ymd_of_valid ⟨c.y, c.m, c.d⟩ hv 0
+    have et : toSpec ⟨c.y, c.m, c.d⟩ = c := rfl
+    rw [et] at hy
+    rw [hy]
+    have hcar := carryYM_eq c.y c.m 0 0 hv.1 hv.2.1
+    have hsh : Spec.C18.monthShift (c.y + 0) c.m 0 = (c.y, c.m) := by
+      obtain ⟨hm1, hm12, _, _⟩ := hv
+      unfold Spec.C18.monthShift; apply Prod.ext <;> simp only [] <;> omega
+    rw [hsh] at hcar
+    unfold addRel
+    simp only [hcar]
+    have hyr : ¬ (c.y < 1 ∨ c.y > 9999) := by omega
+    simp only [if_neg hyr]
+    have hmin : min (daysInMonth c.y c.m) (Option.getD (some 31) c.d) = Spec.C18.daysInMonth c.y c.m := by
+      have := dim_pos c.y c.m
+      rw [dim_eq] at this ⊢
+      simp only [Option.getD]; omega
+    rw [hmin]
+    have hdt := dtOfYMD_valid ⟨c.y, c.m, Spec.C18.daysInMonth c.y c.m⟩ hve hr.1 hr.2 0
+    rw [hdt]
+    unfold Res.map
+    simp only []
+    have et2 : toSpec ⟨c.y, c.m, Spec.C18.daysInMonth c.y c.m⟩ = Spec.C18.endOfMonth c := rfl
+    rw [et2, number_of_date]
+
+/-- non-vacuity: 31 January + 1 month clips to the end of February; the leap day is kept in 2020 -/
+example : IsSerial 43861 ∧ dateOf 43861 = ⟨2020, 1, 31⟩ ∧ Spec.C18.edate (dateOf 43861) 1 = some 43890
+    ∧ Spec.C18.addMonths (dateOf 43861) 1 = ⟨2020, 2, 29⟩ ∧ Spec.C18.addMonths (dateOf 43861) 13 = ⟨2021, 2, 28⟩
+    ∧ Spec.C18.eomonth (dateOf 43861) (-2) = some 43799 := by decide
+
+/-! ### The fraction of a serial is the time of day (and D45: not on the way back) -/
+
+theorem floor_int_add_frac (n : Int) (f : Rat) (hf0 : 0 ≤ f) (hf1 : f < 1) : ((n : Rat) + f).floor = n := by
+  rw [Rat.add_comm, Rat.floor_add_intCast]
+  have h1 : f.floor < 1 := Rat.floor_lt_iff.mpr (by exact_mod_cast hf1)
+  have h2 : (0 : Int) ≤ f.floor := Rat.le_floor_iff.mpr (by exact_mod_cast hf0)
+  omega
+
+/-- serial → datetime puts the fraction of the serial into the time of day, on every serial
+    (also on serial 59, D1802) -/
+theorem fraction_is_time (n : Int) (f : Rat) (h : IsSerial n) (hf0 : 0 ≤ f) (hf1 : f < 1) :
+    numberToDatetime (.flt ((n : Rat) + f)) = .ok ⟨dayOf n, f * 86400⟩ := by
+  have hfl := floor_int_add_frac n f hf0 hf1
+  have hn : (1 : Rat) ≤ (n : Rat) := by exact_mod_cast h.1
+  unfold numberToDatetime
+  have hpy : pyInt (.flt ((n : Rat) + f)) = n := by
+    unfold pyInt
+    simp only []
+    rw [if_neg (by linarith), hfl]
+  have hq : (Num.flt ((n : Rat) + f)).toRat = (n : Rat) + f := rfl
+  rw [hpy, hq]
+  simp only [hfl]
+  have hge : ((n : Rat) + f ≥ 60) ↔ n ≥ 60 := by
+    constructor
+    · intro hh
+      apply Classical.byContradiction; intro hc
+      have : (n : Rat) ≤ 59 := by exact_mod_cast (by omega : n ≤ 59)
+      linarith
+    · intro hh
+      have : (60 : Rat) ≤ (n : Rat) := by exact_mod_cast hh
+      linarith
+  simp only [hge]
+  have e : ((n : Rat) + f - (n : Rat)) * 86400 = f * 86400 := by ring
+  rw [e]
+  unfold dayOf
+  apply mkDT_ok <;> split <;> omega
+
+example : numberToDatetime (.flt ((59 : Int) + 1 / 2)) = .ok ⟨58, 43200⟩ := by
+  rw [fraction_is_time 59 (1 / 2) (by decide) (by norm_num) (by norm_num)]
+  simp [dayOf]; norm_num
+
+/-
+  D45 (known finding, hard-coded in tests/xlfunctions/test_xltypes.py).  GOAL, full strength:
+
+    theorem time_is_fraction (d : Int) (s : Rat) (h0 : 0 ≤ s) (h1 : s < 86400) :
+        datetimeToNumber ⟨d, s⟩ = ((d + (if d > 58 then 2 else 1) : Int) : Rat) + s / 86400
+
+  It is FALSE for the code as written (`delta.seconds / 24 * 60 * 60` multiplies by 150 instead of
+  dividing by 86400): the kernel-checked counter-example below is 2020-01-01 12:00.
+-/
+theorem time_is_fraction_counterexample :
+    datetimeToNumber ⟨43829, 43200⟩ = 6523831 ∧ (6523831 : Rat) ≠ 43831 + 43200 / 86400 := by
+  constructor
+  · decide +kernel
+  · norm_num
+
+/-- what the code does compute: 150 "days" per second -/
+theorem datetime_to_number_as_coded (d : Int) (s : Int) :
+    datetimeToNumber ⟨d, (s : Rat)⟩ = ((d + (if d > 58 then 2 else 1) : Int) : Rat) + 150 * (s : Rat) := by
+  unfold datetimeToNumber
+  simp only [Rat.floor_intCast]
+  ring
+
+/-- the guarded version that holds: at midnight the serial is whole and exact -/
+theorem time_is_fraction_partial (d : Int) :
+    datetimeToNumber ⟨d, 0⟩ = ((d + (if d > 58 then 2 else 1) : Int) : Rat) + 0 / 86400 := by
+  rw [datetimeToNumber_whole]; norm_num
+
+
+/-! ### DAYS, DATEDIF, YEARFRAC -/
+
+/-- the calendar days between two serials -/
+theorem dayOf_sub (n1 n2 : Int) (h1 : IsSerial n1) (h2 : IsSerial n2) :
+    dayOf n2 - dayOf n1 = ordinal (dateOf n2) - ordinal (dateOf n1) := by
+  have e1 := (spec_of_civil (dayOf n1 + epochCivil)).2
+  have e2 := (spec_of_civil (dayOf n2 + epochCivil)).2
+  show _ = ordinal (toSpec (civilFromDays (dayOf n2 + epochCivil))) - ordinal (toSpec (civilFromDays (dayOf n1 + epochCivil)))
+  omega
+
+/-- `days_sub`: DAYS is the difference of the serials; on one side of the fictitious 29 February 1900
+    that is the number of calendar days between the dates -/
+theorem days_sub (n1 n2 : Int) (_h1 : IsSerial n1) (_h2 : IsSerial n2) :
+    DAYS ⟨dayOf n2, 0⟩ ⟨dayOf n1, 0⟩ = .ok ((n2 - n1 : Int) : Rat) := by
+  unfold DAYS
+  rw [datetimeToNumber_whole, datetimeToNumber_whole, ← Rat.intCast_sub]
+  congr 2
+  unfold dayOf
+  split <;> split <;> split <;> split <;> omega
+
+theorem days_calendar (n1 n2 : Int) (h1 : IsSerial n1) (h2 : IsSerial n2)
+    (hside : (n1 < 60 ∧ n2 < 60) ∨ (60 < n1 ∧ 60 < n2)) :
+    n2 - n1 = ordinal (dateOf n2) - ordinal (dateOf n1) := by
+  rw [← dayOf_sub n1 n2 h1 h2]; unfold dayOf; split <;> split <;> omega
+
+theorem number_serial (n : Int) (h : IsSerial n) : datetimeToNumber ⟨dayOf n, 0⟩ = (n : Rat) := by
+  rw [datetimeToNumber_whole]; congr 1; unfold dayOf; split <;> split <;> omega
+
+/-- `datedif_spec`: for two serials in order, DATEDIF gives the calendar days ("D"), the complete
+    months ("M") and the complete years ("Y") between the dates, in either letter case -/
+theorem datedif_spec (n1 n2 : Int) (h1 : IsSerial n1) (h2 : IsSerial n2) (hle : n1 ≤ n2) :
+    DATEDIF ⟨dayOf n1, 0⟩ ⟨dayOf n2, 0⟩ ['D'] = .ok (ordinal (dateOf n2) - ordinal (dateOf n1)) ∧
+    DATEDIF ⟨dayOf n1, 0⟩ ⟨dayOf n2, 0⟩ ['M'] = .ok (Spec.C18.completeMonths (dateOf n1) (dateOf n2)) ∧
+    DATEDIF ⟨dayOf n1, 0⟩ ⟨dayOf n2, 0⟩ ['Y'] = .ok (Spec.C18.completeYears (dateOf n1) (dateOf n2)) ∧
+    DATEDIF ⟨dayOf n1, 0⟩ ⟨dayOf n2, 0⟩ ['d'] = DATEDIF ⟨dayOf n1, 0⟩ ⟨dayOf n2, 0⟩ ['D'] ∧
+    DATEDIF ⟨dayOf n1, 0⟩ ⟨dayOf n2, 0⟩ ['m'] = DATEDIF ⟨dayOf n1, 0⟩ ⟨dayOf n2, 0⟩ ['M'] ∧
+    DATEDIF ⟨dayOf n1, 0⟩ ⟨dayOf n2, 0⟩ ['y'] = DATEDIF ⟨dayOf n1, 0⟩ ⟨dayOf n2, 0⟩ ['Y'] := by
+  have hgt : ¬ datetimeToNumber ⟨dayOf n1, 0⟩ > datetimeToNumber ⟨dayOf n2, 0⟩ := by
+    rw [number_serial n1 h1, number_serial n2 h2]
+    have : (n1 : Rat) ≤ (n2 : Rat) := by exact_mod_cast hle
+    linarith
+  have hv1 := (serial_date_spec n1 h1).1
+  have hv2 := (serial_date_spec n2 h2).1
+  have hday : dayOf n1 ≤ dayOf n2 := by unfold dayOf; split <;> split <;> omega
+  have hsub := dayOf_sub n1 n2 h1 h2
+  have core : ∀ u : List Char, DATEDIF ⟨dayOf n1, 0⟩ ⟨dayOf n2, 0⟩ u =
+      (let a := DT.ymd ⟨dayOf n1, 0⟩
+       let b := DT.ymd ⟨dayOf n2, 0⟩
+       let months0 := (b.y - a.y) * 12 + (b.m - a.m)
+       let months := if b.d < a.d then months0 - 1 else months0
+       let u := u.map upperChar
+       if u = ['Y'] then .ok (months / 12)
+       else if u = ['M'] then .ok months
+       else if u = ['D'] then .ok (rruleDailyCount (dayOf n1) (dayOf n2))
+       else if u = ['M', 'D'] then
+         (replaceYMD ⟨1900, 1, a.d⟩).bind fun x => (replaceYMD ⟨1900, 1, b.d⟩).bind fun y =>
+           .ok (rruleDailyCount x.day y.day)
+       else if u = ['Y', 'M'] then .ok ((if a.m ≤ b.m then b.m - a.m + 1 else 0) - 1)
+       else if u = ['Y', 'D'] then
+         (replaceYMD ⟨1900, a.m, a.d⟩).bind fun x => (replaceYMD ⟨1900, b.m, b.d⟩).bind fun y =>
+           .ok (rruleDailyCount x.day y.day)
+       else .ok 0) := by
+    intro u
+    unfold DATEDIF
+    rw [if_neg hgt, dtInt_serial n1 h1, dtInt_serial n2 h2, number_to_datetime_whole n1 h1,
+      number_to_datetime_whole n2 h2]
+    rfl
+  have ud : ['d'].map upperChar = ['D'] := by decide
+  have um : ['m'].map upperChar = ['M'] := by decide
+  have uy : ['y'].map upperChar = ['Y'] := by decide
+  have uD : ['D'].map upperChar = ['D'] := by decide
+  have uM : ['M'].map upperChar = ['M'] := by decide
+  have uY : ['Y'].map upperChar = ['Y'] := by decide
+  refine ⟨?_, ?_, ?_, ?_, ?_, ?_⟩
+  · rw [core]; simp only [uD, if_true]
+    rw [if_neg (by decide), if_neg (by decide)]
+    unfold rruleDailyCount; rw [if_pos hday]; congr 1; omega
+  · rw [core]; simp only [uM, if_true]
+    rw [if_neg (by decide)]
+    unfold Spec.C18.completeMonths
+    show Res.ok (if (dateOf n2).d < (dateOf n1).d then
+      ((dateOf n2).y - (dateOf n1).y) * 12 + ((dateOf n2).m - (dateOf n1).m) - 1
+      else ((dateOf n2).y - (dateOf n1).y) * 12 + ((dateOf n2).m - (dateOf n1).m)) = _
+    congr 1
+    split <;> omega
+  · rw [core]; simp only [uY, if_true]
+    unfold Spec.C18.completeYears
+    show Res.ok ((if (dateOf n2).d < (dateOf n1).d then
+      ((dateOf n2).y - (dateOf n1).y) * 12 + ((dateOf n2).m - (dateOf n1).m) - 1
+      else ((dateOf n2).y - (dateOf n1).y) * 12 + ((dateOf n2).m - (dateOf n1).m)) / 12) = _
+    obtain ⟨ha1, ha12, _, _⟩ := hv1
+    obtain ⟨hb1, hb12, _, _⟩ := hv2
+    congr 1
+    split <;> split <;> omega
+  · rw [core, core]; simp only [ud, uD]
+  · rw [core, core]; simp only [um, uM]
+  · rw [core, core]; simp only [uy, uY]
+
+/-- D47 (fixed): from a 31st, the months that lack a 31st are no longer skipped -/
+example : IsSerial 43861 ∧ IsSerial 44255 ∧ dateOf 43861 = ⟨2020, 1, 31⟩ ∧ dateOf 44255 = ⟨2021, 2, 28⟩ ∧
+    Spec.C18.completeMonths (dateOf 43861) (dateOf 44255) = 12 ∧
+    Spec.C18.completeYears (dateOf 43861) (dateOf 44255) = 1 := by decide
+
+
+theorem deltaDays_whole (d1 d2 : Int) : deltaDays ⟨d1, 0⟩ ⟨d2, 0⟩ = d2 - d1 := by
+  unfold deltaDays
+  simp
+
+/-- YEARFRAC on two whole serials, in either order: the arguments are put in order, then the basis
+    selects the day count -/
+theorem YEARFRAC_whole (n1 n2 : Int) (h1 : IsSerial n1) (h2 : IsSerial n2) (hle : n1 ≤ n2) (b : Int) :
+    (YEARFRAC ⟨dayOf n1, 0⟩ ⟨dayOf n2, 0⟩ (.int b) =
+      if b = 0 then d30360e (DT.ymd ⟨dayOf n1, 0⟩) (DT.ymd ⟨dayOf n2, 0⟩) true
+      else if b = 1 then actAfb (DT.ymd ⟨dayOf n1, 0⟩) (DT.ymd ⟨dayOf n2, 0⟩)
+      else if b = 2 then .ok (((dayOf n2 - dayOf n1 : Int) : Rat) / 360)
+      else if b = 3 then .ok (((dayOf n2 - dayOf n1 : Int) : Rat) / 365)
+      else if b = 4 then d30360e (DT.ymd ⟨dayOf n1, 0⟩) (DT.ymd ⟨dayOf n2, 0⟩) false
+      else .err .value) ∧
+    YEARFRAC ⟨dayOf n2, 0⟩ ⟨dayOf n1, 0⟩ (.int b) = YEARFRAC ⟨dayOf n1, 0⟩ ⟨dayOf n2, 0⟩ (.int b) := by
+  have c1 : ¬ ((n1 : Rat) < 1) := by
+    have : (1 : Rat) ≤ (n1 : Rat) := by exact_mod_cast h1.1
+    linarith
+  have c2 : ¬ ((n2 : Rat) < 1) := by
+    have : (1 : Rat) ≤ (n2 : Rat) := by exact_mod_cast h2.1
+    linarith
+  have c3 : ¬ ((n1 : Rat) > (n2 : Rat)) := by
+    have : (n1 : Rat) ≤ (n2 : Rat) := by exact_mod_cast hle
+    linarith
+  have hb : ∀ k : Int, ((Num.int b).toRat = (k : Rat)) ↔ b = k := by
+    intro k; rw [toRat_int]; exact Rat.intCast_inj
+  have hb0 := hb 0; have hb1 := hb 1; have hb2 := hb 2; have hb3 := hb 3; have hb4 := hb 4
+  simp only [Int.cast_ofNat, Int.cast_zero, Int.cast_one] at hb0 hb1 hb2 hb3 hb4
+  have first : YEARFRAC ⟨dayOf n1, 0⟩ ⟨dayOf n2, 0⟩ (.int b) =
+      if b = 0 then d30360e (DT.ymd ⟨dayOf n1, 0⟩) (DT.ymd ⟨dayOf n2, 0⟩) true
+      else if b = 1 then actAfb (DT.ymd ⟨dayOf n1, 0⟩) (DT.ymd ⟨dayOf n2, 0⟩)
+      else if b = 2 then .ok (((dayOf n2 - dayOf n1 : Int) : Rat) / 360)
+      else if b = 3 then .ok (((dayOf n2 - dayOf n1 : Int) : Rat) / 365)
+      else if b = 4 then d30360e (DT.ymd ⟨dayOf n1, 0⟩) (DT.ymd ⟨dayOf n2, 0⟩) false
+      else .err .value := by
+    unfold YEARFRAC
+    simp only [number_serial n1 h1, number_serial n2 h2, if_neg c1, if_neg c2, if_neg c3,
+      deltaDays_whole, hb0, hb1, hb2, hb3, hb4]
+  refine ⟨first, ?_⟩
+  by_cases heq : n1 = n2
+  · subst heq; rfl
+  · have c4 : (n2 : Rat) > (n1 : Rat) := by
+      have : (n1 : Rat) < (n2 : Rat) := by exact_mod_cast (by omega : n1 < n2)
+      linarith
+    rw [first]
+    unfold YEARFRAC
+    simp only [number_serial n1 h1, number_serial n2 h2, if_neg c1, if_neg c2, if_pos c4,
+      deltaDays_whole, hb0, hb1, hb2, hb3, hb4]
+
+/-- `yearfrac_23`: on the actual bases YEARFRAC is the number of calendar days between the dates
+    divided by 360 (basis 2) and by 365 (basis 3), whatever the order of the arguments -/
+theorem yearfrac_23 (n1 n2 : Int) (h1 : IsSerial n1) (h2 : IsSerial n2) (hle : n1 ≤ n2) :
+    YEARFRAC ⟨dayOf n1, 0⟩ ⟨dayOf n2, 0⟩ (.int 2)
+      = .ok (((ordinal (dateOf n2) - ordinal (dateOf n1) : Int) : Rat) / 360) ∧
+    YEARFRAC ⟨dayOf n2, 0⟩ ⟨dayOf n1, 0⟩ (.int 2)
+      = .ok (((ordinal (dateOf n2) - ordinal (dateOf n1) : Int) : Rat) / 360) ∧
+    YEARFRAC ⟨dayOf n1, 0⟩ ⟨dayOf n2, 0⟩ (.int 3)
+      = .ok (((ordinal (dateOf n2) - ordinal (dateOf n1) : Int) : Rat) / 365) ∧
+    YEARFRAC ⟨dayOf n2, 0⟩ ⟨dayOf n1, 0⟩ (.int 3)
+      = .ok (((ordinal (dateOf n2) - ordinal (dateOf n1) : Int) : Rat) / 365) := by
+  have w2 := YEARFRAC_whole n1 n2 h1 h2 hle 2
+  have w3 := YEARFRAC_whole n1 n2 h1 h2 hle 3
+  have hs := dayOf_sub n1 n2 h1 h2
+  simp only [show ¬ ((2 : Int) = 0) by decide, show ¬ ((2 : Int) = 1) by decide, if_false, if_true] at w2
+  simp only [show ¬ ((3 : Int) = 0) by decide, show ¬ ((3 : Int) = 1) by decide,
+    show ¬ ((3 : Int) = 2) by decide, if_false, if_true] at w3
+  rw [hs] at w2 w3
+  exact ⟨w2.1, by rw [w2.2, w2.1], w3.1, by rw [w3.2, w3.1]⟩
+
+/-- a basis outside 0 … 4 is #VALUE! -/
+theorem yearfrac_bad_basis (n1 n2 : Int) (h1 : IsSerial n1) (h2 : IsSerial n2) (hle : n1 ≤ n2) (b : Int)
+    (hb : b < 0 ∨ 4 < b) : YEARFRAC ⟨dayOf n1, 0⟩ ⟨dayOf n2, 0⟩ (.int b) = .err .value := by
+  rw [(YEARFRAC_whole n1 n2 h1 h2 hle b).1]
+  rw [if_neg (by omega), if_neg (by omega), if_neg (by omega), if_neg (by omega), if_neg (by omega)]
+
+
+/-
+  Bases 0 and 4 (30/360).  GOAL, full strength, on the dates where the US and the European convention
+  coincide with the plain count (`Spec.C18.Plain360`: day ≤ 28, and not the last day of February):
+
+    theorem yearfrac_30360 (a b : YMD) (ha : Plain360 (toSpec a)) (hb : Plain360 (toSpec b))
+        (hle : 0 ≤ days360 (toSpec a) (toSpec b)) (matu : Bool) :
+        d30360e a b matu = .ok ((days360 (toSpec a) (toSpec b) : Rat) / 360)
+
+  It is FALSE for the `yearfrac` package conventions the code calls (finding D1803): the package
+  treats *every* 28 February as day 30 — also in a leap year, where it is not the end of the month.
+  Kernel-checked counter-example: 2020-02-28 → 2020-03-28 is 30 days on every 30/360 convention.
+-/
+theorem yearfrac_30360_counterexample :
+    Spec.C18.Plain360 ⟨2020, 2, 28⟩ ∧ Spec.C18.Plain360 ⟨2020, 3, 28⟩ ∧
+    Spec.C18.days360 ⟨2020, 2, 28⟩ ⟨2020, 3, 28⟩ = 30 ∧
+    d30360e ⟨2020, 2, 28⟩ ⟨2020, 3, 28⟩ true = .ok (28 / 360) ∧
+    d30360e ⟨2020, 2, 28⟩ ⟨2020, 3, 28⟩ false = .ok (28 / 360) := by decide +kernel
+
+/-- the guarded version that holds: no date is a 28 February (and no day is 29 … 31) -/
+theorem yearfrac_30360_partial (a b : YMD) (ha : a.d ≤ 28 ∧ ¬ (a.m = 2 ∧ a.d = 28))
+    (hb : b.d ≤ 28 ∧ ¬ (b.m = 2 ∧ b.d = 28))
+    (hle : 0 ≤ Spec.C18.days360 (toSpec a) (toSpec b)) (matu : Bool) :
+    d30360e a b matu = .ok ((Spec.C18.days360 (toSpec a) (toSpec b) : Rat) / 360) := by
+  unfold Spec.C18.days360 toSpec at hle ⊢
+  simp only [] at hle ⊢
+  unfold d30360e
+  have e2 : (if b.m = 2 ∧ b.d ≥ 28 then (if matu = true then b.d else 30) else (if b.d > 30 then 30 else b.d)) = b.d := by
+    rw [if_neg (by omega), if_neg (by omega)]
+  have e1 : (if a.m = 2 ∧ a.d ≥ 28 then (30 : Int) else (if a.d > 30 then 30 else a.d)) = a.d := by
+    rw [if_neg (by omega), if_neg (by omega)]
+  simp only [e1, e2]
+  have e3 : 360 * (b.y - a.y) + 30 * (b.m - a.m) + b.d - a.d = 360 * (b.y - a.y) + 30 * (b.m - a.m) + (b.d - a.d) := by
+    omega
+  rw [e3, if_neg (by omega)]
+
+example : (15 : Int) ≤ 28 ∧ ¬ ((3 : Int) = 2 ∧ (15 : Int) = 28) := by decide
+
+/-- with `YEARFRAC_whole`: bases 0 and 4 on two serials none of which is a 28 February or a 29th-31st -/
+theorem yearfrac_04_partial (n1 n2 : Int) (h1 : IsSerial n1) (h2 : IsSerial n2) (hle : n1 ≤ n2)
+    (ha : (dateOf n1).d ≤ 28 ∧ ¬ ((dateOf n1).m = 2 ∧ (dateOf n1).d = 28))
+    (hb : (dateOf n2).d ≤ 28 ∧ ¬ ((dateOf n2).m = 2 ∧ (dateOf n2).d = 28))
+    (hpos : 0 ≤ Spec.C18.days360 (dateOf n1) (dateOf n2)) :
+    YEARFRAC ⟨dayOf n1, 0⟩ ⟨dayOf n2, 0⟩ (.int 0) = .ok ((Spec.C18.days360 (dateOf n1) (dateOf n2) : Rat) / 360) ∧
+    YEARFRAC ⟨dayOf n1, 0⟩ ⟨dayOf n2, 0⟩ (.int 4) = .ok ((Spec.C18.days360 (dateOf n1) (dateOf n2) : Rat) / 360) := by
+  have w0 := (YEARFRAC_whole n1 n2 h1 h2 hle 0).1
+  have w4 := (YEARFRAC_whole n1 n2 h1 h2 hle 4).1
+  simp only [if_true] at w0
+  simp only [show ¬ ((4 : Int) = 0) by decide, show ¬ ((4 : Int) = 1) by decide,
+    show ¬ ((4 : Int) = 2) by decide, show ¬ ((4 : Int) = 3) by decide, if_false, if_true] at w4
+  rw [w0, w4]
+  exact ⟨yearfrac_30360_partial _ _ ha hb hpos true, yearfrac_30360_partial _ _ ha hb hpos false⟩
+
+example : IsSerial 43905 ∧ IsSerial 44301 ∧ dateOf 43905 = ⟨2020, 3, 15⟩ ∧ dateOf 44301 = ⟨2021, 4, 15⟩ ∧
+    Spec.C18.days360 (dateOf 43905) (dateOf 44301) = 390 := by decide
+
+/-
+  Basis 1 (actual/actual).  GOAL: `actAfb a b = .ok r` with `|r - Spec.C18.yearfrac1 a b| < 1/1000`
+  for all dates a ≤ b of the date system.  FALSE (finding D1804): the code calls the AFB convention of
+  the `yearfrac` package, which divides a period inside a leap year but after February by 365 where
+  Excel's actual/actual divides by 366, and counts whole years where Excel averages year lengths.
+  Kernel-checked counter-example: 2012-03-01 → 2012-12-31 is 305 days.
+-/
+theorem yearfrac_1_counterexample :
+    actAfb ⟨2012, 3, 1⟩ ⟨2012, 12, 31⟩ = .ok (305 / 365) ∧
+    Spec.C18.yearfrac1 ⟨2012, 3, 1⟩ ⟨2012, 12, 31⟩ = 305 / 366 ∧
+    ((305 : Rat) / 365 - 305 / 366 > 1 / 1000) := by
+  refine ⟨by decide +kernel, by decide +kernel, by norm_num⟩
+
+/-- the guarded version that holds exactly: both dates in one common (non-leap) year -/
+theorem yearfrac_1_partial (a b : YMD) (ha : Valid a) (hb : Valid b) (hy : a.y = b.y) (hl : ¬ Leap a.y)
+    (hle : ordinal (toSpec a) < ordinal (toSpec b)) :
+    actAfb a b = .ok (Spec.C18.yearfrac1 (toSpec a) (toSpec b)) := by
+  have oa : ordinal (toSpec a) = daysFromCivil a - 305 := ordinal_eq a.y a.m a.d ha.1 ha.2.1
+  have ob : ordinal (toSpec b) = daysFromCivil b - 305 := ordinal_eq b.y b.m b.d hb.1 hb.2.1
+  have hy' : (toSpec a).y = (toSpec b).y := hy
+  have hl' : ¬ Spec.C18.Leap (toSpec a).y := hl
+  have hd : daysFromCivil b - daysFromCivil a = ordinal (toSpec b) - ordinal (toSpec a) := by omega
+  unfold actAfb
+  simp only [if_pos hy, hd]
+  rw [if_neg (show ¬ (ordinal (toSpec b) - ordinal (toSpec a) < 0) by omega)]
+  have hden : (if Leap a.y ∧ a.m < 3 then (366 : Rat) else 365) = 365 := if_neg (fun h => hl h.1)
+  rw [hden]
+  unfold Spec.C18.yearfrac1
+  simp only []
+  rw [if_neg (show ¬ (ordinal (toSpec b) - ordinal (toSpec a) = 0) by omega)]
+  have hw : ((toSpec a).y = (toSpec b).y ∨ ((toSpec b).y = (toSpec a).y + 1 ∧
+      ((toSpec a).m > (toSpec b).m ∨ ((toSpec a).m = (toSpec b).m ∧ (toSpec a).d ≥ (toSpec b).d)))) := Or.inl hy'
+  rw [if_pos hw]
+  simp only [if_pos hy']
+  have hdec : decide (Spec.C18.Leap (toSpec a).y) = false := decide_eq_false hl'
+  rw [hdec]
+  simp
+
+example : Valid ⟨2021, 3, 1⟩ ∧ Valid ⟨2021, 12, 31⟩ ∧ ¬ Leap 2021 := by decide
 
 end XlVerif.Props.C18
